@@ -118,6 +118,15 @@ theorem expand_input_ranges_count (r : Ranges) (runs : List RunOut)
   rw [mapE_length _ _ _ h, product4_length]
   ac_rfl
 
+/-- `method = splitting` (as of the repository's `fix: input files with method 'splitting' can be
+    read`): one simulation per element of code × noise × decoder, each carrying the whole list
+    of error rates -/
+theorem splitting_one_simulation_per_code_noise_decoder (r : Ranges) (p : PV) (sims : List SimT)
+    (hm : methodOf r = .ok ("splitting", p)) (h : simsOfRanges r = .ok sims)
+    (cr nr dr : List Block) (er : List PV) (hp : parseAllRanges r = .ok (cr, nr, dr, er)) :
+    sims.length = cr.length * nr.length * dr.length :=
+  simsOfRanges_splitting_length r p sims hm h cr nr dr er hp
+
 /-! ### list of ranges, explicit runs -/
 
 /-- a list of ranges dictionaries gives the concatenation, in order, of what each gives -/
